@@ -101,10 +101,11 @@ async def scenario(loop, plan, r, out):
         out["ezsp"] = ezsp
         await ezsp.connect(use_thread=False)
         sp = plan.get("spont", "absent")
+        W = cfg.startup_reset_wait()  # "seen" = inside the tree's waiting window, "late" = after it
         if sp == "seen":
-            loop.call_later(0.3, stack.spontaneous_rstack)
+            loop.call_later(0.3 * W, stack.spontaneous_rstack)
         elif sp == "late":
-            loop.call_later(1.3, stack.spontaneous_rstack)
+            loop.call_later(1.3 * W, stack.spontaneous_rstack)
         steps = []
         out["steps"] = steps
 
@@ -208,7 +209,7 @@ async def scenario(loop, plan, r, out):
                 await asyncio.sleep(0)
                 out["bg_refused_at_once"] = all(t_.done() and not t_.cancelled() and t_.exception() is not None for t_ in bg_tasks)
             if sp2 := plan.get("spont2"):
-                loop.call_later(0.3 if sp2 == "seen" else 1.3, stack.spontaneous_rstack)
+                loop.call_later((0.3 if sp2 == "seen" else 1.3) * W, stack.spontaneous_rstack)
             if not await step("startup_reset2", lambda: ezsp.startup_reset()):
                 return
         for t_ in bg_tasks:
